@@ -602,6 +602,11 @@ func (ex *Exec) typeFactTerm(t Term, ty types.Type, st *State) Term {
 		if st != nil {
 			f = And(f, Lt(IfVal(t), st.top))
 		}
+		if u.NumMethods() > 0 && !strings.Contains(t.S, "?") {
+			// a non-nil value of interface type T has a dynamic type that implements T
+			ex.noteIface(ty)
+			f = And(f, Implies(Neq(IfDyn(t), IntLit(0)), ex.implementsTerm(IfDyn(t), ty)))
+		}
 		return f
 	}
 	return True
